@@ -212,6 +212,19 @@ theorem C12_fault_sequence_partial (me : Nat) (bs : List Block) (fs : List Fault
   have h := fault_sequence me fs init bs hkinds init_boundary sane_init (init_selfInv me) hwf hok hgood
   exact ⟨h.ok, h.reg, h.hist, h.count⟩
 
+/-- the same with syntactic hypotheses on the stream: strictly increasing block numbers, no log without topics -/
+theorem C12_fault_sequence (me : Nat) (bs : List Block) (fs : List Fault)
+    (hkinds : ∀ f ∈ fs, f.kind ≠ .retry) (hwf : OpAddsWF (flatten bs))
+    (hinc : Increasing 0 bs) (hnt : Event.noTopics ∉ flatten bs)
+    (hgood : (faultyRun me init bs fs).2 = false) :
+    (faultyRun me init bs fs).1.2 = true ∧
+    (faultyRun me init bs fs).1.1.reg = (run me init bs).1.reg ∧
+    (faultyRun me init bs fs).1.1.hist = (run me init bs).1.hist ∧
+    ∀ key, (keysOf (faultyRun me init bs fs).1.1.wal).count key = (keysOf (run me init bs).1.wal).count key := by
+  have hok := run_completes me init bs hinc hnt
+  have h := C12_fault_sequence_partial me bs fs hkinds hwf hok hgood
+  exact ⟨h.1.trans hok, h.2⟩
+
 /-- non-vacuity: three faults — inside RemoveShare of the life-cycle block, then at its commit, then in a later
     block — none on the excluded position; the faulty run really restarts and re-executes -/
 example :
